@@ -384,15 +384,16 @@ def text_leg(res, exe, root, r, n_cases):
   viol = []
   charhist = {" ": 0, ":": 0, "$": 0}
   keyspace = 0
-  for ci in range(n_cases):
-    c = random_case(r, 6, adversarial=True)
-    if not L.wf_case(c):
-      continue
+  tcases = [c for c in (random_case(r, 6, adversarial=True) for _ in range(n_cases)) if L.wf_case(c)]
+  mlines = [L.model_line(c) for c in tcases]
+  mouts = subprocess.run([exe], input="\n".join(l for l, _ in mlines) + "\n", capture_output=True,
+                         text=True).stdout.split("\n")
+  pending = []          # (msteps, texts, first line index) for the batched render / parse_build run
+  rb_lines = []
+  for c, (ln, it), mo in zip(tcases, mlines, mouts):
     impl = L.run_impl(c, outdir)
     if impl == "ERR":
       continue
-    ln, it = L.model_line(c)
-    mo = subprocess.run([exe], input=ln + "\n", capture_output=True, text=True).stdout
     model = L.decode_model(mo, it, outdir)
     d = cmp_plans(model, impl, check_module=False)
     if d:
@@ -405,7 +406,7 @@ def text_leg(res, exe, root, r, n_cases):
       n_bad += 1
       res.obligation("correspondence:adversarial-text-count", False, "%d statements vs %d" % (len(texts), len(msteps)))
       continue
-    # model render and parse_build of the real text
+    # model render and parse_build of the real text (run in one batch after the loop)
     lines = []
     for s in msteps:
       toks = ["R", "1" if esc_mod else "0"] + lenc(s["out"]) + lenc(s["action"]) + lenc(s["input"])
@@ -414,24 +415,8 @@ def text_leg(res, exe, root, r, n_cases):
       lines.append(" ".join(toks))
     for t in texts:
       lines.append("B " + " ".join(codes(t)))
-    out = subprocess.run([exe], input="\n".join(lines) + "\n", capture_output=True, text=True).stdout.split("\n")
-    for k, (s, t) in enumerate(zip(msteps, texts)):
-      n_stmt += 1
-      for ch in charhist:
-        if ch in t:
-          charhist[ch] += 1
-      rendered = bytes(int(x) for x in out[k].split()).decode("utf-8")
-      if rendered != t:
-        n_bad += 1
-        if n_bad <= 3:
-          res.obligation("correspondence:render-vs-write_build_statement", False,
-                         "model %r real %r" % (rendered, t))
-      pb = out[len(msteps) + k]
-      exp = expected_parse(s, esc_mod)
-      if pb != exp and not (isinstance(exp, ExpectPrefix) and pb == "FAIL"):
-        n_bad += 1
-        if n_bad <= 3:
-          res.obligation("correspondence:parse_build-of-real-text", False, "model parse %r expected %r text %r" % (pb, exp, t))
+    pending.append((msteps, texts, len(rb_lines)))
+    rb_lines += lines
     # the real ninja binary's view
     unreadable = getattr(impl[1], "unreadable", None)
     view = L.ninja_view(outdir, [] if unreadable else impl[1])
@@ -456,16 +441,21 @@ def text_leg(res, exe, root, r, n_cases):
       if view["targets"] != exp_targets:
         n_bad += 1
         res.obligation("ninja-binary:targets", False, "%r vs %r" % (view["targets"][:4], exp_targets[:4]))
+      if len(view["edges"]) != len(msteps):
+        n_bad += 1
+        res.obligation("ninja-binary:query", False, "%r" % (view["edges"][-1:],))
       for s, e in zip(msteps, view["edges"]):
         if "error" in e or e["rule"] != s["action"] or e["ins"] != [s["input"]] or e["implicit"] != s["deps"]:
           n_bad += 1
           res.obligation("ninja-binary:query", False, "ninja reads %r, expected in=%r deps=%r" % (e, s["input"], s["deps"]))
           break
+      want_cmds = []
+      for s in msteps:
         want_mod = s["module"] if esc_mod else L.py_lex(s["module"].lstrip(" ") + "\n", 0, False)[0]
-        if e["cmd"] != "I<%s>M<%s>" % (s["impfile"], want_mod):
-          n_bad += 1
-          res.obligation("ninja-binary:bindings", False, "ninja evaluates %r, expected imports=%r module=%r" % (e["cmd"], s["impfile"], want_mod))
-          break
+        want_cmds.append("I<%s>M<%s>" % (s["impfile"], want_mod))
+      if sorted(want_cmds) != view["cmds"]:
+        n_bad += 1
+        res.obligation("ninja-binary:bindings", False, "ninja evaluates %r, expected %r" % (view["cmds"][:3], sorted(want_cmds)[:3]))
     # oracle (uses the Python parse, which the legs above tie to ninja's reading)
     for fp, msg in L.oracle(c, outdir, impl):
       viol.append((fp, msg, c))
@@ -479,6 +469,26 @@ def text_leg(res, exe, root, r, n_cases):
       if [tuple(x) for x in got] != [tuple(x) for x in s["imports"]]:
         n_bad += 1
         res.obligation("imports-file:real-reader", False, "reader %r expected %r" % (got, s["imports"]))
+  out_all = subprocess.run([exe], input="\n".join(rb_lines) + "\n", capture_output=True, text=True).stdout.split("\n")
+  for msteps, texts, off in pending:
+    out = out_all[off:off + 2 * len(msteps)]
+    for k, (s, t) in enumerate(zip(msteps, texts)):
+      n_stmt += 1
+      for ch in charhist:
+        if ch in t:
+          charhist[ch] += 1
+      rendered = bytes(int(x) for x in out[k].split()).decode("utf-8")
+      if rendered != t:
+        n_bad += 1
+        if n_bad <= 3:
+          res.obligation("correspondence:render-vs-write_build_statement", False,
+                         "model %r real %r" % (rendered, t))
+      pb = out[len(msteps) + k]
+      exp = expected_parse(s, esc_mod)
+      if pb != exp and not (isinstance(exp, ExpectPrefix) and pb == "FAIL"):
+        n_bad += 1
+        if n_bad <= 3:
+          res.obligation("correspondence:parse_build-of-real-text", False, "model parse %r expected %r text %r" % (pb, exp, t))
   res.extra["text_leg"] = {"statements": n_stmt, "ninja_views": n_view, "statements_containing": charhist, "plans_ninja_rejects(raw $ in module binding)": n_unreadable,
                            "imports_files_with_space_in_key_not_read_back": keyspace}
   res.obligation("correspondence:adversarial-names(text,parse_build,ninja-binary,reader)", n_bad == 0,
@@ -567,10 +577,84 @@ def mini_parse_inputs(text):
   return ins, imp, oo, val, pos
 
 
+def parse_query(out, names):
+  """`ninja -t query n1 n2 ...` -> {name: (ins, implicit, order_only)}."""
+  res = {}
+  lines = out.split("\n")
+  k = 0
+  for nm in names:
+    if k >= len(lines) or lines[k] != nm + ":":
+      return None
+    k += 1
+    gi, gm, go = [], [], []
+    if k < len(lines) and lines[k].startswith("  input: "):
+      k += 1
+      while k < len(lines) and lines[k].startswith("    "):
+        l = lines[k][4:]
+        if l.startswith("|| "): go.append(l[3:])
+        elif l.startswith("| "): gm.append(l[2:])
+        else: gi.append(l)
+        k += 1
+    while k < len(lines) and lines[k].startswith("  ") :
+      k += 1            # outputs: / validations: sections
+    res[nm] = (gi, gm, go)
+  return res
+
+
+def ninja_paths_batch(d, header, items):
+  """items: [(key, text)] with text placed as the inputs of `build OUT_<i>: r <text>`.  One ninja run for
+  the whole batch; if ninja rejects the file each item is run alone.  Returns {key: (ins, imp, oo) | "FAIL"}."""
+  def run(sub):
+    with open(os.path.join(d, "build.ninja"), "w", newline="") as f:
+      f.write(header + "".join("build OUT_%d: r %s" % (i, t) for i, (_, t) in enumerate(sub)))
+    names = ["OUT_%d" % i for i in range(len(sub))]
+    rc, o, e = L.ninja(["-t", "query"] + names, d)
+    if rc != 0:
+      return None
+    q = parse_query(o, names)
+    return None if q is None else {k: q["OUT_%d" % i] for i, (k, _) in enumerate(sub)}
+  if not items:
+    return {}
+  got = run(items)
+  if got is not None:
+    return got
+  res = {}
+  for it in items:
+    g = run([it])
+    res[it[0]] = "FAIL" if g is None else g[it[0]]
+  return res
+
+
+def ninja_values_batch(d, header, items):
+  """items: [(key, text)] with text as the value of a binding; evaluated through `-t commands`."""
+  def run(sub):
+    with open(os.path.join(d, "build.ninja"), "w", newline="") as f:
+      f.write(header + "".join("build OUT_%d: r\n  i = %d\n  v = %s" % (i, i, t) for i, (_, t) in enumerate(sub)))
+    rc, o, e = L.ninja(["-t", "commands"], d)
+    if rc != 0:
+      return None
+    got = {}
+    for l in o.split("\n"):
+      if l.startswith("#"):
+        idx, _, v = l[1:].partition("<")
+        got[int(idx)] = "<" + v
+    return {k: got.get(i, "MISSING") for i, (k, _) in enumerate(sub)}
+  if not items:
+    return {}
+  got = run(items)
+  if got is not None:
+    return got
+  res = {}
+  for it in items:
+    g = run([it])
+    res[it[0]] = "FAIL" if g is None else g[it[0]]
+  return res
+
+
 def lexer_leg(res, exe, root, r, n_raw, n_esc):
   d = os.path.join(root, "lex")
   os.makedirs(d, exist_ok=True)
-  header = "rule r\n  command = <$v>\n" + "".join("%s = %s\n" % kv for kv in ENV.items())
+  header = "rule r\n  command = #$i<$v>\n" + "".join("%s = %s\n" % kv for kv in ENV.items())
   n = n_bad = n_err = n_term = 0
   def report(name, detail):
     nonlocal n_bad
@@ -580,6 +664,7 @@ def lexer_leg(res, exe, root, r, n_raw, n_esc):
   raws = []
   for _ in range(n_raw):
     raws.append("".join(r.choice(RAW) for _ in range(r.randint(0, 6))))
+  raws = sorted(set(raws))
   # (1) Coq lexer == Python port, both modes
   lines = []
   for t in raws:
@@ -604,97 +689,99 @@ def lexer_leg(res, exe, root, r, n_raw, n_esc):
       n += 1
       if g != want:
         report("correspondence:lexer-model-vs-port", "text %r mode %d: model %r port %r" % (txt, mode, g, want))
-  # (2) Python port (and so the model) == the real ninja binary, text in input position and in a binding
+  # (2) Python port (and so the model) == the real ninja binary: text as the inputs of a build statement ...
+  ok_items, err_items, wants = [], [], {}
   for t in raws:
     if "\0" in t:
       continue
     txt = t + "\n"
-    with open(os.path.join(d, "build.ninja"), "w", newline="") as f:
-      f.write(header + "build OUT_: r " + txt)
     try:
       ins, imp, oo, val, pos = mini_parse_inputs(txt)
       if pos != len(txt):
-        raise KeyError   # text continues on a further line: not a single statement, skip
-      want = (ins, imp, oo)
+        continue          # the text continues on a further line: not a single statement
+      wants[t] = (ins, imp, oo)
+      ok_items.append((t, txt))
     except ValueError:
-      want = "FAIL"
-    except KeyError:
-      continue
-    rc, o, e = L.ninja(["-t", "query", "OUT_"], d)
-    if rc != 0:
-      got = "FAIL"
-    else:
-      gi, gm, go = [], [], []
-      for l in o.split("\n")[2:]:
-        if l.startswith("  outputs:") or l.startswith("  validations:"):
-          break
-        l = l[4:]
-        if l.startswith("|| "): go.append(l[3:])
-        elif l.startswith("| "): gm.append(l[2:])
-        else: gi.append(l)
-      got = (gi, gm, go)
+      wants[t] = "FAIL"
+      err_items.append((t, txt))
+  got = ninja_paths_batch(d, header, ok_items)
+  for t, txt in err_items[:20]:
+    got.update(ninja_paths_batch(d, header, [(t, txt)]))
+  for t, g in got.items():
     n += 1
-    if want == "FAIL": n_err += 1
-    if got != want:
-      report("ninja-binary:lexer-paths", "text %r: ninja %r port %r (%s)" % (txt, got, want, (o + e)[:200] if rc else ""))
+    if wants[t] == "FAIL": n_err += 1
+    if g != wants[t]:
+      report("ninja-binary:lexer-paths", "text %r: ninja %r port %r" % (t + "\n", g, wants[t]))
+  # ... and as the value of a binding
+  ok_items, err_items, wants = [], [], {}
   for t in raws:
     if "\0" in t or "\r" in t.replace("$\r\n", "") or "\n" in t.replace("$\r\n", "").replace("$\n", ""):
       continue
     txt = t + "\n"
-    with open(os.path.join(d, "build.ninja"), "w", newline="") as f:
-      f.write(header + "build OUT_: r\n  v = " + txt)
     try:
       p0 = L._eat_ws(txt, 0)   # pylint: disable=protected-access
       v, pos = L.py_lex(txt, p0, False, ENV)
       if pos != len(txt):
         continue
-      want = "<" + v + ">"
+      wants[t] = "<" + v + ">"
+      ok_items.append((t, txt))
     except ValueError:
-      want = "FAIL"
-    rc, o, e = L.ninja(["-t", "commands", "OUT_"], d)
-    got = "FAIL" if rc != 0 else o.rstrip("\n")
+      wants[t] = "FAIL"
+      err_items.append((t, txt))
+  got = ninja_values_batch(d, header, ok_items)
+  for t, txt in err_items[:20]:
+    got.update(ninja_values_batch(d, header, [(t, txt)]))
+  for t, g in got.items():
     n += 1
-    if got != want:
-      report("ninja-binary:lexer-values", "text %r: ninja %r port %r" % (txt, got, want))
+    if wants[t] == "FAIL": n_err += 1
+    if g != wants[t]:
+      report("ninja-binary:lexer-values", "text %r: ninja %r port %r" % (t + "\n", g, wants[t]))
   # (3) escape: real escape_ninja_path == model escape; the real ninja reads the escaped name back unchanged
-  #     exactly for names without newline / CR / '|' (path) — the character class of the theorem
+  #     exactly for names without newline / CR / '|' / NUL (path) resp. newline / CR / NUL (value): the
+  #     character classes of the theorems
   pr = L.setup()["pr"]
-  names = []
+  names = set()
   for _ in range(n_esc):
-    names.append("".join(r.choice(["a", "b", " ", ":", "$", "$x", "${x}", "|", "\n", "\r", ".", "-", "é", "{", "}"])
-                         for _ in range(r.randint(1, 7))))
+    names.add("".join(r.choice(["a", "b", " ", ":", "$", "$x", "${x}", "|", "\n", "\r", ".", "-", "\u00e9", "{", "}"])
+                      for _ in range(r.randint(1, 7))))
+  names = sorted(x for x in names if x.strip(".") != "")     # '.' alone is canonicalised by ninja
   lines = ["E " + " ".join(codes(s)) for s in names]
   out = subprocess.run([exe], input="\n".join(lines) + "\n", capture_output=True, text=True).stdout.split("\n")
+  esc = {}
   for s, o in zip(names, out):
     real = pr.escape_ninja_path(s)
     model = bytes(int(x) for x in o.split()).decode("utf-8")
     n += 1
+    esc[s] = real
     if real != model:
       report("correspondence:escape", "escape_ninja_path(%r)=%r model %r" % (s, real, model))
-    in_class = not any(ch in s for ch in "\n\r|\0")
-    with open(os.path.join(d, "build.ninja"), "w", newline="") as f:
-      f.write(header + "build OUT_: r " + real + "\n")
-    rc, o2, e2 = L.ninja(["-t", "query", "OUT_"], d)
-    ok = False
-    if rc == 0:
-      ls = o2.split("\n")
-      ok = len(ls) >= 4 and ls[2] == "    " + s and ls[3].startswith("  outputs:")
-    # names ninja canonicalises ('.', './x', 'a//b') are not generated ('/' is not in the alphabet)
-    if in_class and not ok and s.strip(".") != "":
-      report("ninja-binary:escaped-path-roundtrip", "name %r escaped %r: ninja reads %r" % (s, real, (o2 + e2)[:200]))
-    if not in_class:
-      n_term += 1
-      if ok:
-        report("char-class-not-exact", "name %r (outside the class) survived: the theorem's class is too small" % s)
-    # value position (imports = ..., module = ... on the fixed tree): '|' is fine there
-    with open(os.path.join(d, "build.ninja"), "w", newline="") as f:
-      f.write(header + "build OUT_: r\n  v = " + real + "\n")
-    rc, o3, _ = L.ninja(["-t", "commands", "OUT_"], d)
-    okv = rc == 0 and o3.rstrip("\n") == "<" + s + ">"
-    if okv != (not any(ch in s for ch in "\n\r\0")):
-      report("ninja-binary:escaped-value-roundtrip", "value %r escaped %r: ninja gives %r" % (s, real, o3[:200]))
+  in_p = [s for s in names if not any(ch in s for ch in "\n\r|\0")]
+  out_p = [s for s in names if s not in in_p][:15]
+  got = ninja_paths_batch(d, header, [(s, esc[s] + "\n") for s in in_p])
+  for s in in_p:
+    n += 1
+    if got[s] != ([s], [], []):
+      report("ninja-binary:escaped-path-roundtrip", "name %r escaped %r: ninja reads %r" % (s, esc[s], got[s]))
+  for s in out_p:
+    g = ninja_paths_batch(d, header, [(s, esc[s] + "\n")])[s]
+    n += 1; n_term += 1
+    if g == ([s], [], []):
+      report("char-class-not-exact", "name %r (outside the class) survived: the theorem's class is too small" % s)
+  in_v = [s for s in names if not any(ch in s for ch in "\n\r\0")]
+  out_v = [s for s in names if s not in in_v][:15]
+  got = ninja_values_batch(d, header, [(s, esc[s] + "\n") for s in in_v])
+  for s in in_v:
+    n += 1
+    if got[s] != "<" + s + ">":
+      report("ninja-binary:escaped-value-roundtrip", "value %r escaped %r: ninja gives %r" % (s, esc[s], got[s]))
+  for s in out_v:
+    g = ninja_values_batch(d, header, [(s, esc[s] + "\n")])[s]
+    n += 1; n_term += 1
+    if g == "<" + s + ">":
+      report("char-class-not-exact", "value %r (outside the class) survived" % s)
   res.extra["lexer_leg"] = {"comparisons": n, "predicted_and_observed_errors": n_err,
-                            "names_outside_class_confirmed_not_surviving": n_term}
+                            "names_outside_class_confirmed_not_surviving": n_term,
+                            "escaped_names_in_class": len(in_p)}
   res.obligation("correspondence:lexer-model/port/ninja-binary", n_bad == 0, "%d disagreements of %d" % (n_bad, n))
   res.count(None, n)
 
@@ -988,7 +1075,7 @@ def run(res):
       batches += list(chunks(sampled_cases(5, kinds3, 48, common.rng(res.seed, "c19", "n5")), 1500))
     # ---- random
     rnd = []
-    n_rand = 12000 if thorough else 1500
+    n_rand = 12000 if thorough else 800
     for i in range(n_rand):
       fl = None
       t = i % 20
